@@ -26,8 +26,9 @@
     `modDown_once_per_giant_step`, `no_P_no_reduce`, `naive_final_reduce_redundant`.
   Regenerated from the source and proved equal to the model (`C12Gen`): the margins, the index arithmetic of
   `BSGSIndex` for one diagonal.  `FindBestBSGSRatio` (float ratios) is hand-modelled; `findBestBSGSRatio_pos`.
-  Tied only: `bsgsindex`, `bestratio`, `galels`, `alloc`, `at`, `permdiags` (`Permutation.GetDiagonals` has no
-  theorem), the `eval` lines (keys requested in order, advertised, level, scale, decrypted values).
+  `permDiagonals_keys`: the keys of `Permutation.GetDiagonals` are pairwise different, in [0, n).
+  Tied only: `bsgsindex`, `bestratio`, `galels`, `alloc`, `at`, `permdiags(c)` (`Permutation.GetDiagonals`: keys
+  only; that the diagonals realise the permutation is probed end to end, `perm_e2e_*`), the `eval` lines (keys requested in order, advertised, level, scale, decrypted values).
   Probed only: decrypted result = M·v (bgv exact, ckks 2^-8) incl. 60/61-bit primes with several windows of
   baby steps, keys from the package-level `GaloisElements` only (`keys_sufficient_pkg`).
   Not covered: the polynomials under the schedule (hoisted gadget products, automorphisms, ModDown: C04/C11;
@@ -363,6 +364,68 @@ example : advertisedRots [-3] 4 (-1) = [1] ∧ advertisedRots [-1, 1, -2] 4 (-1)
 theorem findBestBSGSRatio_pos (diags : List Int) (maxN lr : Nat) : 0 < findBestBSGSRatio diags maxN lr :=
   Lattigo.Model.LinTrans.findBestBSGSRatio_pos diags maxN lr
 
+/-! ## permutations -/
+
+theorem permFold_keys (rowsN n : Nat) (hn : 0 < n) (maps : List (Nat × Int × Int × Nat)) :
+    ∀ (acc : List (Int × List Nat)), (∀ k ∈ acc.map (·.1), 0 ≤ k ∧ k < (n : Int)) →
+      ∀ k ∈ (maps.foldl (fun (acc : List (Int × List Nat)) (mp : Nat × Int × Int × Nat) =>
+        let (row, from_, to_, sc) := mp
+        let d := permDiagIdx n from_ to_
+        let pos := (to_ + (row * n : Nat)).toNat
+        match lookupI d acc with
+        | some _ => acc.map fun kv => if kv.1 = d then (kv.1, setAt kv.2 pos sc) else kv
+        | none => acc ++ [(d, setAt (List.replicate (rowsN * n) 0) pos sc)]) acc).map (·.1),
+      0 ≤ k ∧ k < (n : Int) := by
+  induction maps with
+  | nil => intro acc h; simpa using h
+  | cons mp rest ih =>
+    intro acc h
+    obtain ⟨row, from_, to_, sc⟩ := mp
+    simp only [List.foldl_cons]
+    apply ih
+    intro k hk
+    split at hk
+    · simp only [List.map_map, List.mem_map, Function.comp] at hk
+      obtain ⟨kv, hkv, rfl⟩ := hk
+      have : kv.1 ∈ acc.map (·.1) := List.mem_map_of_mem hkv
+      split <;> exact h _ this
+    · simp only [List.map_append, List.map_cons, List.map_nil, List.mem_append, List.mem_singleton] at hk
+      rcases hk with hk | hk
+      · exact h k hk
+      · rw [hk]; exact normIdx_range n hn _
+
+/-- **permDiagonals_keys**: the diagonals `Permutation.GetDiagonals` returns (tied: `permdiags`, `permdiagsc`) have
+    pairwise different keys, all in `[0, n)` — one key per diagonal of the matrix modulo `n`, for every list of
+    mappings (offsets `+n/2` and `−n/2` land on the same key) -/
+theorem permDiagonals_keys (rowsN n : Nat) (hn : 0 < n) (maps : List (Nat × Int × Int × Nat)) :
+    ((permDiagonals rowsN n maps).map (·.1)).Nodup ∧
+    ∀ kv ∈ permDiagonals rowsN n maps, 0 ≤ kv.1 ∧ kv.1 < (n : Int) := by
+  have hkeys := permFold_keys rowsN n hn maps [] (by simp)
+  unfold permDiagonals
+  generalize maps.foldl _ [] = m at hkeys ⊢
+  constructor
+  · have hsub : ∀ ks : List Int, (ks.filterMap fun k => (lookupI k m).map fun v => (k, v)).map (·.1)
+        = ks.filter fun k => (lookupI k m).isSome := by
+      intro ks
+      induction ks with
+      | nil => rfl
+      | cons k ks ih =>
+        simp only [List.filterMap_cons, List.filter_cons]
+        cases hl : lookupI k m with
+        | none => simpa using ih
+        | some v => simp [ih]
+    rw [hsub]
+    exact (sortU_nodup _).filter _
+  · intro kv hkv
+    simp only [List.mem_filterMap] at hkv
+    obtain ⟨k, hk, hkv⟩ := hkv
+    cases hl : lookupI k m with
+    | none => simp [hl] at hkv
+    | some v =>
+      simp only [hl, Option.map_some, Option.some.injEq] at hkv
+      rw [← hkv]
+      exact hkeys k ((mem_sortU k _).mp hk)
+
 /-! ## level and scale -/
 
 /-- **meta_spec**: `level = min(opOut.Level, ctIn.Level, lt.LevelQ)`, `scale = scale_ct · scale_lt`
@@ -554,6 +617,7 @@ example : diagAt [((5 : Int), (1 : Int))] (-3) 8 = some 1 := by decide
 #print axioms evaluateSequential_two
 #print axioms lintrans_keys_sufficient
 #print axioms findBestBSGSRatio_pos
+#print axioms permDiagonals_keys
 #print axioms meta_spec
 #print axioms out_scale_spec
 #print axioms out_scale_receiver_matters
